@@ -33,7 +33,7 @@ RULE = ("exhaustive over abort points: for every scenario of a fixed family (opt
         "gradient requests, NaN failures -> TOO_FEW and max_functions stops; evaluator step, also with a failing evaluation; sequences "
         "of two to four steps, also re-running a step object; nested plans of depth 2 (outer <= 2 x inner <= 2 evaluations) and "
         "depth 3, with failures, budget stops and empty trackers (NESTED_OPTIMIZER_FAILED) inside the inner, middle and outer run; "
-        "BasicOptimizer with its abort and results callbacks) and handler/observer layouts (0-3 handlers per plan level, 0-2 "
+        "BasicOptimizer with its abort and results callbacks, also one object run twice) and handler/observer layouts (0-3 handlers per plan level, 0-2 "
         "observers registered for all or for some event types), EVERY index k of the unaborted delivery log (each delivery to a "
         "handler or observer and each evaluator call) is used as the abort point, plus k = none; thorough adds seeded random "
         "scenarios, again with every abort index.  Non-trivial = an abort was raised (k inside the log); distinct = distinct "
@@ -52,10 +52,10 @@ TRUSTED = [
     "step bodies (which evaluations happen, where too-few / budget stops occur) come from the C14 machine Model/Step.v",
     "the BasicOptimizer runs register the plug-ins with the plug-in manager of the object's private OptimizerContext",
 ]
-# BasicOptimizer.run() registers the callbacks with the shared context again on every call, so a second run() on the same
-# object delivers every event twice to each callback (reported to the lead; no entry in known_findings.json): the stream
-# that runs one BasicOptimizer twice stays disabled.
-BASIC_RERUN = False
+# One BasicOptimizer object run twice: its callbacks must still receive every event exactly once (F15d: run() used to
+# register them with the shared context again on every call; fixed in 522b7ae).  Every run() builds a new Plan, so an
+# abort in the first run does not refuse the second one: the abort points enumerated are those of the second run.
+BASIC_RERUN = True
 
 EV = c14.EV
 USER_ABORT = 4
@@ -167,9 +167,7 @@ def _scenario(case, k):
     exits = []
     if case.get("basic"):
         try:
-            spec = case["steps"][0]
-            c = spec["case"]
-            Scripted.queue[:] = [c14.spec_of(c14.root(c), c["allow_nan"])]
+            c = case["steps"][0]["case"]
             opt = BasicOptimizer(c14.make_config(c), evaluator, verifbasic={"tag": 0, "world": w})
             octx = opt._optimizer_context
             octx.plugin_manager.add_plugin("optimizer", "verifscript", env14["ScriptedPlugin"]())
@@ -179,17 +177,19 @@ def _scenario(case, k):
                     continue
                 for v in _events_of(ob):
                     octx.add_observer(by_value[v], lambda ev, j=ob["id"]: w.deliver(j, ev))
-            # the step of the plan BasicOptimizer builds is not known beforehand: its events are the only ones
-            w.names = _Anything(0)
-            opt.set_abort_callback(lambda: w.note(ABORT_CB, 0, EV["SE"]))
+            # the step of the plan BasicOptimizer builds is not known beforehand: its events are the only ones of a run
+            opt.set_abort_callback(lambda: w.note(ABORT_CB, w.names.v, EV["SE"]))
 
             def results_cb(results):
-                w.log.append([RESULTS_CB, 0, EV["FE"]])
+                w.log.append([RESULTS_CB, w.names.v, EV["FE"]])
                 w._raise_if_hit()
 
             opt.set_results_callback(results_cb)
-            opt.run()
-            exits.append([0, int(opt.exit_code.value)])
+            for spec in case["steps"]:          # more than one: the same object is run again (same configuration)
+                w.names = _Anything(spec["sid"])
+                Scripted.queue[:] = [c14.spec_of(c14.root(spec["case"]), spec["case"]["allow_nan"])]
+                opt.run()
+                exits.append([spec["sid"], int(opt.exit_code.value)])
             return {"log": w.log, "exits": exits, "flags": [], "probe": "n/a"}
         except BaseException as e:  # noqa: BLE001 - the class is the observation
             return {"log": w.log, "exits": exits, "flags": [], "probe": "n/a", "exc": type(e).__name__}
@@ -558,6 +558,8 @@ def scenario_family(tier):
         ("basic-toofew", [_opt([F, _req("F", 1, 0, BAD), F])]),
         ("basic-budget-batch", [_opt([_req("F", 0, 2), F, F], maxf=2)]),
     ]
+    if BASIC_RERUN:
+        basic += [("basic-rerun", [_opt([F, G]), _opt([F1, FG, F])])]
     if tier == "thorough":
         fam += [
             ("opt-long", [_opt([F, G, FG, _req("F", 1, 3), _req("G", 1), _req("FG", 2)])]),
@@ -656,9 +658,12 @@ def gen_cases(tier, rng):
         for plans, observers in layouts:
             levels = 1 if basic else max(d + 1, 2 if nl % 2 else d + 1)     # sometimes a plan level that is never used
             base = {"name": name, "plans": plans[:levels], "observers": observers, "steps": steps, "basic": basic}
-            n = _length_of(base)
+            D = _scenario({**base, "k": None}, None)["log"]
+            n = len(D)
             yield {**base, "k": None}
-            for k in range(n + 1):
+            # a BasicOptimizer object that is run again: every run has its own plan, abort points of the last run only
+            first = next((i for i, e in enumerate(D) if e[0] != CALL and e[1] == len(steps) - 1), n) if basic and len(steps) > 1 else 0
+            for k in range(first, n + 1):
                 yield {**base, "k": k}
 
 
@@ -733,12 +738,14 @@ def shrink(case):
     if len(case["steps"]) > 1:
         for i in range(len(case["steps"])):
             yield {**case, "steps": case["steps"][:i] + case["steps"][i + 1:]}
-    if case["k"] is not None and case["k"] > 0:
+    # (a BasicOptimizer object run twice: only abort points of the last run are in the model's domain)
+    rerun = case.get("basic") and len(case["steps"]) > 1
+    if case["k"] is not None and case["k"] > 0 and not rerun:
         yield {**case, "k": case["k"] - 1}
 
 
 def search(rng, case):
-    if case is None:
+    if case is None or (case.get("basic") and len(case["steps"]) > 1):
         return
     for k in range(0, 80):
         yield {**case, "k": k}
@@ -766,8 +773,8 @@ MANIFEST = {
                    "(C14); nesting depth in the correspondence is 3 (the theorems hold for any program tree); the wf/quiet/non-empty-"
                    "recipient side conditions of the theorems are evaluated by the checker on every compiled scenario (hypotheses_ok) "
                    "and wf / quiet are proved for everything the compiler produces (C15_compiled_steps_satisfy_hypotheses, "
-                   "C15_every_compiled_scenario).  BasicOptimizer.run() called twice on one object registers its callbacks twice (each "
-                   "event reaches them twice): reported, no alarm under the weakest reading, the stream is disabled (BASIC_RERUN).  "
+                   "C15_every_compiled_scenario).  BasicOptimizer.run() called twice on one object used to register its callbacks twice (F15d, fixed in "
+                   "522b7ae): scenario basic-rerun.  "
                    "Trusted: Coq kernel + VM, the recording handler plug-in, observers, callbacks and scripted optimizer of "
                    "harness/props/C15.py and C14.py.  All theorems print 'Closed under the global context'."),
     "technique": ("Coq proof (simulation invariant by induction over program trees: aborted log = prefix + closure; stack invariant over "
